@@ -166,6 +166,6 @@ CHECKS.update({
 })
 
 CHECKS.update({
-    "C27": ("6/C27", "JOURNAL SEAM ONLY: 4 workflows (chain, fan-out with two concurrent workers + order-sensitive fan-in, zero-delay retry, waiter + external event) on the real control loop with the real InternalDBOSAdapter.wait_for_next_task, TaskJournal and SqliteJournalCrud (DB file) over modelled DBOS durable operations (function ids in call order; a recorded result is returned on recovery without re-execution at an explorer-chosen moment) x every completion order within the deviation bound x process stop after every durable write (operation result or journal row) x recovery; the recovered tick log must extend the original one, durable operations must be called in the recorded order, and the run must finish.",
+    "C27": ("6/C27", "JOURNAL SEAM ONLY: 7 workflows (2- and 3-step chains, fan-out with two concurrent workers + order-sensitive fan-in, three items for two workers, a worker that fails once next to a sibling, zero-delay retry, waiter + external event) on the real control loop with the real InternalDBOSAdapter.wait_for_next_task, TaskJournal and SqliteJournalCrud (DB file) over modelled DBOS durable operations (function ids in call order; a recorded result is returned on recovery without re-execution at an explorer-chosen moment) x every completion order within the deviation bound x process stop after every durable write (operation result or journal row) x recovery; the recovered tick log must extend the original one, durable operations must be called in the recorded order, and the run must finish.",
             "Partial claim: the dbos library, DBOSRuntime.run_workflow, DBOS streams and Postgres are not executed; the DBOS durable-operation semantics are a model written from its documentation (stated in the evidence assumptions). No scheduled wake-ups in the programs (timeout outcomes of wait_for_next_task are not journaled).", CRASH_TECH),
 })
